@@ -86,6 +86,71 @@ fn call_slice() -> Slice {
 }
 
 /// 0..4 parameters x 0..4 locals x pending-operand shapes, arguments through the marker function.
+/// One name, two functions of DIFFERENT arity: a declared function `f` of k1 parameters, and — through a
+/// parameter named f, a nested named function, a function value in a block-local or function-local `f`, a named
+/// function in a branch — another function of k2 parameters that the name denotes in some inner scope. Every
+/// call passes exactly as many arguments as the function the name denotes THERE takes; calls of the outer f
+/// before and after. All (k1, k2) in 0..=3 squared, six mechanisms.
+fn same_name_other_arity() -> Vec<Vec<Stmt>> {
+    let mut out = Vec::new();
+    let sum = |base: i64, names: &[String]| -> nederlang::verif::Expr {
+        let mut e = int(base);
+        for n in names {
+            e = infix(e, Operator::Add, id(n));
+        }
+        e
+    };
+    let args = |k: usize, from: i64| -> Vec<nederlang::verif::Expr> { (0..k).map(|i| int(from + i as i64)).collect() };
+    for k1 in 0..=3usize {
+        for k2 in 0..=3usize {
+            let p1: Vec<String> = (0..k1).map(|i| format!("a{i}")).collect();
+            let p2: Vec<String> = (0..k2).map(|i| format!("b{i}")).collect();
+            let r1: Vec<&str> = p1.iter().map(|s| s.as_str()).collect();
+            let r2: Vec<&str> = p2.iter().map(|s| s.as_str()).collect();
+            let outer = es(func("f", &r1, vec![es(sum(100, &p1))]));
+            let inner_lit = |name: &str, base: i64| func(name, &r2, vec![es(sum(base, &p2))]);
+            let call_outer = || calln("f", args(k1, 1));
+            let call_inner = || calln("f", args(k2, 10));
+            for mech in 0..6 {
+                let mut p: Vec<Stmt> = vec![outer.clone(), print1(call_outer())];
+                match mech {
+                    0 => {
+                        p.push(es(func("toepassen", &["f", "x"], vec![es(infix(call_inner(), Operator::Add, id("x")))])));
+                        p.push(print1(calln("toepassen", vec![inner_lit("", 200), int(1000)])));
+                    }
+                    1 => {
+                        p.push(es(func("werk", &[], vec![es(inner_lit("f", 300)), es(call_inner())])));
+                        p.push(print1(calln("werk", vec![])));
+                    }
+                    2 => {
+                        p.push(Stmt::Block(vec![let_("f", inner_lit("", 400)), print1(call_inner())]));
+                    }
+                    3 => {
+                        p.push(es(func("werk2", &[], vec![let_("f", inner_lit("", 500)), es(call_inner())])));
+                        p.push(print1(calln("werk2", vec![])));
+                    }
+                    4 => {
+                        p.push(es(iff(boolean(true), vec![es(inner_lit("f", 600)), print1(call_inner())], None)));
+                    }
+                    _ => {
+                        // the callee travels along as a parameter of a recursive function
+                        p.push(es(func(
+                            "tel",
+                            &["f", "n"],
+                            vec![es(iff(infix(id("n"), Operator::Lt, int(1)), vec![Stmt::Return(call_inner())], None)), es(calln("tel", vec![id("f"), infix(id("n"), Operator::Subtract, int(1))]))],
+                        )));
+                        p.push(print1(calln("tel", vec![inner_lit("", 700), int(3)])));
+                    }
+                }
+                p.push(print1(call_outer()));
+                p.push(es(call_outer()));
+                out.push(p);
+            }
+        }
+    }
+    out
+}
+
 fn shapes() -> Vec<Vec<Stmt>> {
     let mut out = Vec::new();
     for np in 0..=4usize {
@@ -363,7 +428,7 @@ fn limit_sweep(sh: &mut Shard) {
 fn run(sh: &mut Shard) {
     limit_sweep(sh);
     LEDGER.with(|c| c.set(false));
-    for prog in rebinding().into_iter().chain(shapes()).chain(arity_ladder()) {
+    for prog in rebinding().into_iter().chain(shapes()).chain(arity_ladder()).chain(same_name_other_arity()) {
         if !sh.mine() {
             continue;
         }
@@ -445,6 +510,20 @@ fn run(sh: &mut Shard) {
         }
     });
     // (2c) rebinding of function-valued names
+    for prog in same_name_other_arity() {
+        if !sh.mine() {
+            continue;
+        }
+        sh.begin(&|| printer::program(&prog));
+        sh.count("family:same-name-other-arity");
+        if let Some(r) = differential(sh, "calls", &prog, opts(100_000)) {
+            if !matches!(r.model.end, End::Unspec(_) | End::Diverge) {
+                sh.nontrivial(&printer::program(&prog));
+            } else {
+                sh.count("same-name-other-arity-unspecified");
+            }
+        }
+    }
     for prog in rebinding() {
         if !sh.mine() {
             continue;
